@@ -474,6 +474,55 @@ def i5(prog, ctx):
     ctx.floor("I5", "id-related state locations examined", n, 3)
 
 
+def i6(prog, ctx):
+    """Every annotated exon that carries an id gets it registered: the preload loop of FeatureIdStorage runs to the end of the
+    chromosome's records and skips a record only because it has no id attribute."""
+    from ..engine import flow
+    cls = prog.cls(IDP, "FeatureIdStorage")
+    n = 0
+    for name_, f in sorted(prog.methods_of(cls, inherited=False).items()):
+        for st in walk_no_nested(f):
+            if not (isinstance(st, ast.Assign) and isinstance(st.targets[0], ast.Subscript) and re.search(r"\.attributes\[\w+\]", src(st.value))):
+                continue
+            loops = [l for l in flow.enclosing_loops(st) if isinstance(l, (ast.For, ast.While))]
+            if not loops:
+                ctx.fail("I6", st, f._qualname, src(st)[:80], "reference ids are stored outside a loop over the annotation records")
+                continue
+            loop = loops[0]
+            n += 1
+            bad = None
+            for x in ast.walk(loop):
+                if isinstance(x, (ast.Break, ast.Return)) or (isinstance(x, ast.Raise) and not any(isinstance(h, ast.ExceptHandler) for h in ast.walk(loop))):
+                    # a break that belongs to a nested loop does not leave this one
+                    inner = [l for l in flow.enclosing_loops(x) if l is not loop and any(l is y for y in ast.walk(loop))]
+                    if isinstance(x, ast.Break) and inner:
+                        continue
+                    bad = (x, "the loop over the annotation records can stop early (%s): the ids of all later exons of the chromosome are never "
+                              "registered and those exons are printed with generated ids" % type(x).__name__.lower())
+            absent = re.compile(r"^\w+ (not )?in \w+\.attributes$")
+            for g in flow.guards_of(st, stop=loop):
+                if not absent.match(src(g.test)):
+                    bad = bad or (st, "the id is registered only under %s%s, which is not a test for the presence of the id attribute"
+                                  % ("" if g.polarity else "not ", src(g.test)[:60]))
+            for x in ast.walk(loop):
+                if isinstance(x, ast.Continue):
+                    for g in flow.guards_of(x, stop=loop):
+                        if not absent.match(src(g.test)):
+                            bad = bad or (x, "a record is skipped under %s%s, which is not a test for the presence of the id attribute"
+                                          % ("" if g.polarity else "not ", src(g.test)[:60]))
+            if bad:
+                ctx.fail("I6", bad[0], f._qualname, src(enclosing_stmt_(bad[0]))[:80], bad[1])
+            else:
+                ctx.ok("I6", "%s:%d" % (IDP, loop.lineno), "%s: the preload loop has no early exit and skips only records without the id attribute" % f._qualname)
+    ctx.floor("I6", "preload loops storing reference ids", n, 1)
+
+
+def enclosing_stmt_(n):
+    while n is not None and not isinstance(n, ast.stmt):
+        n = getattr(n, "_parent", None)
+    return n
+
+
 def run(prog, ctx):
     ctx.rule("I5", "GFFPrinter / FeatureIdStorage / id distributors keep no class-level mutable state that is modified at run time; "
                    "their tables are created fresh in __init__")
@@ -483,6 +532,9 @@ def run(prog, ctx):
                    "only constructor site of GraphBasedModelConstructor passes ExcludingIdDistributor(db, chr_id) of the same task; "
                    "increment() skips forbidden ids in a loop; forbidden ids are parsed with the formatting constants")
     ctx.rule("I3", "transcript, gene and exon id format expressions embed the chromosome id (per-chromosome counters start at zero)")
+    ctx.rule("I6", "the loop that preloads reference exon ids into FeatureIdStorage has no break / return, and the store (and every "
+                   "continue) is guarded only by tests for the presence of the id attribute")
+    i6(prog, ctx)
     ctx.rule("I4", "the exon-id key tuple has the same arity and component order (chr,start,end,strand) in loader and lookup; "
                    "reference ids stored verbatim; printers of one task share one storage")
     n1 = i1(prog, ctx)
